@@ -360,6 +360,33 @@ func (p *vflowProc) waitExit(d time.Duration) bool {
 	}
 }
 
+// waitExitFair waits d for the process to end. A collector that has not ended by then but still has runnable
+// threads is not stuck, it is waiting for a processor on a busy machine (or still working): it is given more time,
+// 30 s in all. A collector whose threads all sleep is stuck, and the verdict stands at once.
+func (p *vflowProc) waitExitFair(d time.Duration) bool {
+	if p.waitExit(d) {
+		return true
+	}
+	for waited := d; waited < 30*time.Second; waited += 2 * time.Second {
+		if p.cmd == nil || p.cmd.Process == nil {
+			return p.exited()
+		}
+		if !procRunnable(p.cmd.Process.Pid) {
+			// all threads sleep: stuck — unless it is the collector's own one-second grace pause, begun late
+			if p.waitExit(1500 * time.Millisecond) {
+				return true
+			}
+			if !procRunnable(p.cmd.Process.Pid) {
+				return p.exited()
+			}
+		}
+		if p.waitExit(2 * time.Second) {
+			return true
+		}
+	}
+	return p.exited()
+}
+
 func (p *vflowProc) exited() bool {
 	select {
 	case <-p.done:
